@@ -31,6 +31,13 @@ func vmCase(c map[string]any, maxSteps, maxNext int) vlib.M {
 	if x, ok := c["extra"].(float64); ok {
 		extra = int(x)
 	}
+	// "cancel_after": m - the CALLER cancels the context between two Next calls, after m results (m = 0: before the first call).
+	// For the interpreter model this is a cancellation at the first poll of the following call: the record's "cancel" is set to that poll.
+	cancelAfter := -1
+	if x, ok := c["cancel_after"].(float64); ok {
+		cancelAfter = int(x)
+		rec["cancel_after"] = cancelAfter
+	}
 	q, err := gojq.Parse(c["src"].(string))
 	if err != nil {
 		rec["perr"] = err.Error()
@@ -83,6 +90,11 @@ func vmCase(c map[string]any, maxSteps, maxNext int) vlib.M {
 		falses := 0
 		resumed := []any{}
 		for len(next) < maxNext && !cut && time.Now().Before(deadline) {
+			if cancelAfter >= 0 && len(next) == cancelAfter && falses == 0 && !ctx.fired {
+				ctx.k, ctx.fired = ctx.n+1, true
+				ctx.cancel(errGuardCause)
+				rec["cancel"] = ctx.k
+			}
 			v, ok := it.Next()
 			if !ok {
 				falses++
